@@ -19,12 +19,12 @@ def build_guard(race=False, timeout=900):
     (VERIF_REPO -> alternative modfile)."""
     os.makedirs(harness.BIN, exist_ok=True)
     out = os.path.join(harness.BIN, "vh-race-guard" + ("-race" if race else ""))
-    args = ["go", "build", "-tags", "verif,c13guard", "-o", out]
+    args = ["go", "build", "-trimpath", "-tags", "verif,c13guard", "-o", out]
     alt = os.environ.get("VERIF_REPO")
     if alt:
         tag = str(zlib.crc32(os.path.abspath(alt).encode()))
         out = out + "-alt" + tag
-        args[5] = out
+        args[6] = out
         modfile = os.path.join(harness.BIN, "alt%s.mod" % tag)
         with open(modfile, "w") as fh:
             fh.write("module verif/harness\n\ngo 1.20\n\nrequire github.com/tychoish/fun v0.0.0\n\n"
